@@ -72,6 +72,9 @@ type Ack struct {
 	Timestamp int64
 	Seq       int64 // world sequence number when the wait function returned
 	Zombie    bool  // instance was already dead
+	// StorageChecked: the as-of-ack-time storage checks already ran (in the
+	// environment this one was forked from); only the truth check is repeated.
+	StorageChecked bool
 }
 
 type CpObs struct {
@@ -103,7 +106,7 @@ type LogEnv struct {
 	byInst    map[*Inst]*LogInst
 	Acks      []*Ack
 	nextSub   int
-	broken    bool   // truth tracking lost (after a reported violation)
+	broken    bool // truth tracking lost (after a reported violation)
 	CaseInfo  func() any
 	insts     []*LogInst
 	AuditPub  bool // run the storage audit on every checkpoint publication
@@ -177,6 +180,7 @@ func (e *LogEnv) Fork() *LogEnv {
 		LockObs: append([]CpObs(nil), e.LockObs...), PubObs: append([]CpObs(nil), e.PubObs...),
 		committed: map[string]int64{}, byInst: map[*Inst]*LogInst{},
 		nextSub: e.nextSub, AuditPub: e.AuditPub, NoTruth: e.NoTruth, CaseInfo: e.CaseInfo,
+		Acks: append([]*Ack(nil), e.Acks...), NoDedup: e.NoDedup, broken: e.broken,
 	}
 	for k, v := range e.committed {
 		n.committed[k] = v
@@ -246,10 +250,15 @@ type LogInst struct {
 // Load starts an instance with LoadLog. On error the instance is unwound.
 func (e *LogEnv) Load(name string, plan func(*Call) Decision) (*LogInst, error) {
 	in := NewInst(e.W, name)
+	return e.loadInst(in, plan, nil)
+}
+
+func (e *LogEnv) loadInst(in *Inst, plan func(*Call) Decision, want func() int) (*LogInst, error) {
 	in.Plan = plan
 	li := &LogInst{Env: e, In: in, Cfg: e.config(in)}
 	e.mu.Lock()
 	e.byInst[in] = li
+	e.insts = append(e.insts, li)
 	e.mu.Unlock()
 	type res struct {
 		l   *ctlog.Log
@@ -264,21 +273,37 @@ func (e *LogEnv) Load(name string, plan func(*Call) Decision) (*LogInst, error) 
 		l, err := ctlog.LoadLog(context.Background(), li.Cfg)
 		ch <- res{l, err}
 	}()
-	select {
-	case r := <-ch:
-		if r.err != nil {
-			return nil, r.err
+	for {
+		select {
+		case r := <-ch:
+			if r.err != nil {
+				return nil, r.err
+			}
+			li.Log = r.l
+			return li, nil
+		case <-in.parkedCh:
+			n := 1
+			if want != nil {
+				n = want()
+			}
+			if in.Parked() >= n {
+				return li, errCrashed
+			}
+		case <-done:
+			select {
+			case r := <-ch:
+				if r.err != nil {
+					return nil, r.err
+				}
+				li.Log = r.l
+				return li, nil
+			default:
+			}
+			return li, errCrashed
+		case <-time.After(20 * time.Second):
+			e.R.Inconcl("load watchdog fired")
+			return li, errCrashed
 		}
-		li.Log = r.l
-		e.mu.Lock()
-		e.insts = append(e.insts, li)
-		e.mu.Unlock()
-		return li, nil
-	case <-in.parkedCh:
-		// crashed during load
-		return li, errCrashed
-	case <-done:
-		return li, errCrashed
 	}
 }
 
@@ -526,6 +551,8 @@ func (e *LogEnv) onUpload(w *World, c *Call) {
 	e.PubObs = append(e.PubObs, CpObs{STH: sth, Raw: c.Data, Seq: c.Seq, By: c.Inst.Name})
 	if e.AuditPub && !e.NoTruth && !e.broken {
 		e.pubAudits++
+		e.R.Count("publication_audits", 1)
+		e.R.Count("objects_audited", int64(len(refLayout(sth.Size, true))))
 		for _, p := range e.auditLocked(w, sth.Size, sth.Timestamp, c.IssueSeq) {
 			e.violate("publish-audit:"+p.Class, "at publication of checkpoint size %d: %s", sth.Size, p.Msg)
 		}
@@ -877,6 +904,66 @@ func (e *LogEnv) TruthLen() int {
 	return len(e.Truth)
 }
 
+type decodedTile struct {
+	pin []byte
+	es  []*RefEntry
+	err error
+}
+
+var tileCache sync.Map // key: (*byte, len, width)
+
+type tileCacheKey struct {
+	p *byte
+	n int
+	w int
+}
+
+// decodeDataTileCached gunzips and decodes a stored data tile once per
+// distinct stored byte slice (object versions share backing arrays across
+// forks; the cache pins the slice so the address cannot be reused).
+func decodeDataTileCached(b []byte, w int) ([]*RefEntry, error) {
+	if len(b) == 0 {
+		return nil, fmt.Errorf("empty tile")
+	}
+	k := tileCacheKey{&b[0], len(b), w}
+	if v, ok := tileCache.Load(k); ok {
+		d := v.(*decodedTile)
+		return d.es, d.err
+	}
+	d := &decodedTile{pin: b}
+	raw, err := refGunzip(b)
+	if err != nil {
+		d.err = err
+	} else {
+		d.es, d.err = refDecodeDataTile(raw, w)
+	}
+	tileCache.Store(k, d)
+	return d.es, d.err
+}
+
+type verifiedCp struct {
+	pin []byte
+	sth *RefSTH
+	err error
+}
+
+var cpCache sync.Map
+
+func (e *LogEnv) verifyCpCached(b []byte) (*RefSTH, error) {
+	if len(b) == 0 {
+		return nil, fmt.Errorf("empty checkpoint")
+	}
+	k := tileCacheKey{&b[0], len(b), 0}
+	if v, ok := cpCache.Load(k); ok {
+		d := v.(*verifiedCp)
+		return d.sth, d.err
+	}
+	d := &verifiedCp{pin: b}
+	d.sth, d.err = refVerifyRFC6962Checkpoint(b, e.Name, e.Key.Public())
+	cpCache.Store(k, d)
+	return d.sth, d.err
+}
+
 // CheckAcks verifies every non-zombie successful acknowledgement against the
 // object store as of the acknowledgement instant and against the final truth.
 func (e *LogEnv) CheckAcks() {
@@ -889,17 +976,35 @@ func (e *LogEnv) CheckAcks() {
 		}
 		e.R.Count("acks_checked", 1)
 		e.checkAck(a)
+		a.StorageChecked = true
 	}
 }
 
 func (e *LogEnv) checkAck(a *Ack) {
+	want := pendingToRef(a.Sub.E, a.Index, a.Timestamp)
+	if !a.StorageChecked {
+		e.checkAckStorage(a, want)
+	}
+	// (3) still true in the committed truth
+	if !e.NoTruth && !e.broken {
+		e.mu.Lock()
+		if a.Index >= int64(len(e.Truth)) || !e.Truth[a.Index].Equal(want) {
+			e.mu.Unlock()
+			e.violate("ack-not-in-truth", "acknowledged index %d does not hold the submitted entry in the committed tree", a.Index)
+			return
+		}
+		e.mu.Unlock()
+	}
+}
+
+func (e *LogEnv) checkAckStorage(a *Ack, want *RefEntry) {
 	// (1) the checkpoint readable at the ack instant covers the index
 	raw, ok := e.W.GetAsOf("checkpoint", a.Seq)
 	if !ok {
 		e.violate("ack-without-checkpoint", "submission %d acknowledged (index %d) with no checkpoint object readable", a.Sub.ID, a.Index)
 		return
 	}
-	sth, err := refVerifyRFC6962Checkpoint(raw, e.Name, e.Key.Public())
+	sth, err := e.verifyCpCached(raw)
 	if err != nil {
 		e.violate("ack-checkpoint-unverifiable", "checkpoint readable at ack time does not verify: %v", err)
 		return
@@ -914,18 +1019,13 @@ func (e *LogEnv) checkAck(a *Ack) {
 	// (2) the leaf stored at that instant at that index is the submitted entry
 	n := a.Index / 256
 	w := int(min(256, sth.Size-n*256))
-	want := pendingToRef(a.Sub.E, a.Index, a.Timestamp)
 	found := false
 	for _, ww := range []int{w, 256} {
 		b, ok := e.W.GetAsOf(refTilePath(TileCoord{-1, n, ww}), a.Seq)
 		if !ok {
 			continue
 		}
-		rawTile, err := refGunzip(b)
-		if err != nil {
-			continue
-		}
-		es, err := refDecodeDataTile(rawTile, ww)
+		es, err := decodeDataTileCached(b, ww)
 		if err != nil {
 			continue
 		}
@@ -938,16 +1038,6 @@ func (e *LogEnv) checkAck(a *Ack) {
 	}
 	if !found {
 		e.violate("ack-leaf-unreadable", "data tile for acknowledged index %d not readable at ack time", a.Index)
-	}
-	// (3) still true in the committed truth
-	if !e.NoTruth && !e.broken {
-		e.mu.Lock()
-		if a.Index >= int64(len(e.Truth)) || !e.Truth[a.Index].Equal(want) {
-			e.mu.Unlock()
-			e.violate("ack-not-in-truth", "acknowledged index %d does not hold the submitted entry in the committed tree", a.Index)
-			return
-		}
-		e.mu.Unlock()
 	}
 }
 
